@@ -182,6 +182,7 @@ def _aware_datetimes():
 DATETIMES_FULL = _aware_datetimes()
 DATETIMES = [
     datetime.datetime(1970, 1, 1, tzinfo=UTC),
+    datetime.datetime(1970, 1, 1, 5, 30, tzinfo=tz(330)),  # the same instant as the first value, other offset (== and hash alike)
     datetime.datetime(2020, 2, 29, 23, 59, 59, 999999, tzinfo=tz(330)),
     datetime.datetime(1, 1, 1, tzinfo=UTC),
     datetime.datetime(9999, 12, 31, 23, 59, 59, 999999, tzinfo=UTC),
@@ -192,6 +193,7 @@ DATETIMES = [
 ]
 TIMES = [
     datetime.time(0, 0, tzinfo=UTC),
+    datetime.time(5, 30, tzinfo=tz(330)),  # equal to the first value (same UTC time of day), other offset
     datetime.time(12, 30, tzinfo=tz(330)),
     datetime.time(23, 59, 59, 999999, tzinfo=UTC),
     datetime.time(0, 0, 0, 1, tzinfo=tz(-1)),
@@ -304,6 +306,7 @@ def _mk_leaves():
     add(struct("DCcall", kw))
     add(struct("NT", kw, hashable=True))
     add(struct("PC", kw, hashable=True))
+    add(struct("PCcv", kw, hashable=True))
     add(struct("SC", kw, hashable=True))
     td = struct("TD", lambda c, a, b: {"a": a, "b": b})
     tdnr = struct("TDnr", lambda c, a, b: {"a": a, "b": b})
